@@ -802,4 +802,6 @@ def run(ctx):
     ctx.guard(progress.run_files, ctx, prog, 'C15.R15', ['network/dns_request.cpp', 'network/udp_socket.cpp', 'util/serializer.cpp', 'eventx/timeout_monitor_impl.hpp'], 'DNS datagram path', floor=1)
     from rules import C15_replay
     ctx.guard(C15_replay.r16, ctx, prog)
+    from tbxlint import divzero
+    ctx.guard(divzero.rule, ctx, prog, 'C15.R17', 'A9 no division or remainder by a value that may be zero in the DNS client: every integer /, % whose divisor is not a non-zero constant is preceded on every path by a test that the divisor is not zero (or the divisor is positive by construction): a zero that the peer can cause (a window width, a count, a length) is a SIGFPE that ends the process', ['network/dns_request', 'network/dns_def'], 8)
     return prog
